@@ -88,6 +88,46 @@ DESCR = {
                'more than commandsQueueSize+1 commands pending on one node: reported QUEUE_FULL and applied anyway, callback twice'),
     'C20-m2': ('a (re)connect event refreshes the leader\'s "last heard from" time of that node',
                'a leader cut off at the message level while connect events keep arriving (flapping link, frozen peers)'),
+    'C01-m3': ('snapshot install skipped when the log holds an entry at the snapshot\'s last index, whatever its term',
+               'a deposed leader with an uncommitted tail receives a snapshot from a leader that compacted past the point where the logs still match'),
+    'C02-m3': ('request-id counter initialised after the loop that collects non-snapshot attributes (so it travels inside snapshots)',
+               'a follower installs two snapshots of the same leader around forwarded commands (or restarts from its dump): request ids repeat while an answer is pending'),
+    'C03-m3': ('vote counting: majority test > weakened to >=',
+               'a four-voter cluster and a 2:2 split vote (or a 2|2 partition with a candidate on each side)'),
+    'C04-m3': ('follower commit index = min(leader commit, last matched) without the max with its own commit index',
+               'a retransmitted batch that ends below the follower\'s commit index while the leader\'s commit index has moved on'),
+    'C05-m3': ('acceptTransmission (in-memory): own snapshot set from the receive buffer that was already reset (None)',
+               'a node brought up to date by a snapshot does not compact afterwards, becomes leader and has to pass a snapshot on to a laggard'),
+    'C06-m3': ('(same diff as C09-m2, delivered for C06) os.WEXITSTATUS on the raw wait status',
+               'the fork child dies by a signal while writing the dump; journal trimmed against a dump that was never completed; restart'),
+    'C07-m3': ('response_vote sent before the vote is written to the journal',
+               'a kill between the send and the .meta write (or a failed write), restart, second candidate of the same term'),
+    'C08-m3': ('deleteEntriesTo: tmp file renamed over the journal before it is flushed',
+               'a kill right after the rename while the kept records (< 8 KiB) are still in the user-space write buffer'),
+    'C09-m3': ('incoming snapshot chunks collected in the same .tmp file as the node\'s own dump',
+               'the receiver compacts its own log between the first and the last chunk of a transfer'),
+    'C10-m3': ('snapshot member-set wind-back only when the node itself has a pending change marker',
+               'a follower (or inheriting leader) compacts while it holds an uncommitted membership entry; the entry is discarded; the dump is used'),
+    'C11-m3': ('ResizableFile.write grows the journal file until it exceeds the record size, not the end of the record',
+               'file journal and a record in a band just below a power-of-two multiple of the current file size'),
+    'C12-m3': ('log line formats e.args[0] inside the exception handler of the apply loop',
+               'a raising command whose exception has no arguments or a tuple as its first argument'),
+    'C13-m3': ('dispatch loop stops on any falsy decoded message',
+               'a legal falsy message (empty string, 0, empty list, ...) - dropped, and the complete frames behind it in the same read are held back'),
+    'C14-m3': ('incoming handshake: a new connection of a member that still has a CONNECTED one is closed instead of replacing it',
+               'the dialling member restarts while its old connection has gone silent (no FIN reaches the acceptor)'),
+    'C15-m3': ('replicated decorator: a call with positional AND keyword arguments is logged without its keyword arguments',
+               'a battery method called through the cluster with one positional and one keyword argument'),
+    'C16-m3': ('tryAcquire callback path: "too late" threshold autoUnlockTime instead of autoUnlockTime/2',
+               'asynchronous tryAcquire whose commit takes between half and the whole auto-unlock time'),
+    'C17-m3': ('__onSetCodeVersion iterates the set of versions unsorted',
+               'a multi-version method with version numbers of 8 and more next to smaller ones'),
+    'C18-m3': ('snapshot-chunk send: the "node lost during send" guard removed',
+               'a read-only node whose connection dies inside a non-final snapshot chunk send (KeyError out of the leader\'s tick)'),
+    'C19-m3': ('apply_command_response: callback registered under the follower\'s current term instead of the entry\'s term',
+               'the follower\'s term rises (vote request) between forwarding a command and the old leader\'s answer, and a new leader fills that index'),
+    'C20-m3': ('addNodeToCluster for an existing member refreshes the leader\'s last-response time before being refused',
+               'dynamic membership and repeated "add" requests for existing members reaching a cut-off leader'),
 }
 
 
